@@ -186,7 +186,9 @@ def summary(setmap: defaultdict[str, int], stream: TextIO = sys.stdout):
     total = sum(setmap.values())
     data = []
     total_count = 0
-    for pset in sorted(setmap.keys(), key=len):
+    # Sort by size and then by name, so that the order of the rows does not
+    # depend on the order in which files were discovered.
+    for pset in sorted(setmap.keys(), key=lambda s: (len(s), sorted(s))):
         name = "{" + ", ".join(sorted(pset)) + "}"
         count = setmap[pset]
         percent = (float(setmap[pset]) / float(total)) * 100
